@@ -1,6 +1,7 @@
 import Driver.Common
 import Driver.GTreeIO
 import GeosModel.Base.F64
+import GeosModel.Model.WKT.Dims
 import GeosModel.Model.Num.Fixed
 import GeosModel.Model.Num.Parse
 import GeosModel.Model.WKT.Write
@@ -119,26 +120,14 @@ def geojson (line : String) : String :=
     | _ => "bad-gtree"
   | _ => "bad-line"
 
-/-! ### stream `wkt-red`: the documented dimension dropping (`WKTWriter::setRemoveEmptyDimensions(true)`, output dimension 4) -/
+/-! ### stream `wkt-red`: the documented dimension dropping (`WKTWriter::setRemoveEmptyDimensions(true)`, output dimension 4);
+the rule is `Model/WKT/Dims.lean` (theorems in `Props/C10Dims.lean`) -/
 
-/-- every coordinate sequence of a tree -/
-partial def seqsOf : G → List CSeq
-  | .point s | .lineString s | .linearRing s | .circularString s => [s]
-  | .polygon sh hs => sh :: hs
-  | .compoundCurve gs | .curvePolygon gs | .multiPoint gs | .multiLineString gs | .multiPolygon gs
-  | .multiCurve gs | .multiSurface gs | .collection gs => gs.flatMap seqsOf
-
-/-- a dimension is kept iff SOME coordinate of the geometry carries a non-NaN value in it (io/WKTWriter.h: "remove ... dimensions
-that have no non-NaN values"); an empty geometry keeps its declared dimensions; `<gtree>` → `z=<0|1> m=<0|1>` -/
+/-- `<gtree>` → `z=<0|1> m=<0|1>` -/
 def wktRed (line : String) : String :=
   match Driver.GTreeIO.parseGeom (Driver.tokens line) with
   | some (g, []) =>
-    let ss := seqsOf g.g
-    -- an EMPTY geometry keeps its declared dimensionality (WKTWriter::appendGeometryTaggedText: "for an empty geometry, use the declared dimensionality")
-    let empty := ss.all fun s => s.pts.isEmpty
-    let z := if empty then ss.any (·.hasZ) else ss.any fun s => s.hasZ && s.pts.any fun c => !GeosModel.F64.isNaN c.z
-    let m := if empty then ss.any (·.hasM) else ss.any fun s => s.hasM && s.pts.any fun c => !GeosModel.F64.isNaN c.m
-    s!"z={if z then 1 else 0} m={if m then 1 else 0}"
+    s!"z={if GeosModel.WKT.Dims.writesZ g.g then 1 else 0} m={if GeosModel.WKT.Dims.writesM g.g then 1 else 0}"
   | _ => "bad-gtree"
 
 def handlers : List (String × (String → String)) :=
